@@ -242,7 +242,13 @@ func checkC17(c *Ctx, e *Env) {
 											if eo := st.mem[ep.O]; eo != nil && eo.Kind != "row" {
 												for f2, v2 := range eo.F {
 													if n2 := strings.TrimPrefix(f2, "."); !strings.ContainsAny(n2, ".[") {
-														bad = append(bad, sameName(n2, st.canon(v2))...)
+														tv := st.canon(v2)
+														bad = append(bad, sameName(n2, tv)...)
+														// a scalar of the element that is itself carried from one scan iteration to the
+														// next (a local assigned on one branch only)
+														if ts := strings.TrimSuffix(strings.TrimPrefix(tv, "addrstr("), ")"); loopCarriedScalar.MatchString(ts) && strings.HasPrefix(ts, strings.TrimSuffix(o.Loop, "/")) && !strings.HasSuffix(ts, "/rangeindex") {
+															bad = append(bad, "Q6: field "+n2+" of the listed element is a value carried over from an earlier iteration of the scan loop ("+tv+"): on the branch that does not assign it, the element shows the previous element's value")
+														}
 													}
 												}
 											}
@@ -327,6 +333,9 @@ func checkC17(c *Ctx, e *Env) {
 	c.Count("list_scans", nList)
 	importObligations(c, e, checkC15, "C15", "C17.IRI", "by-IRI queries#parser-agrees-with-encoder", "the queries keyed by an IRI resolve it with ParseIRI; they find the record of every anchored hash only if the parser accepts exactly what the encoders write", func(o *Oblig) bool { return o.Rule == "C15.CODEC" })
 	ruleTimestampConverters(c, e.Model("x/ecocredit"))
+	if ruleLossyDurations(c, e.Model("x/ecocredit"))+ruleLossyDurations(c, e.Model("x/data")) == 0 {
+		c.Hold("C17.CONV", "queries#no-lossy-duration", "-", "no AsDuration conversion in the closure of the query handlers: stored durations reach responses field by field", nil)
+	}
 	c.Min("query methods explored", 45, nQ)
 	c.Min("list scans matched", 30, nList)
 	rulePageAdapter(c, e)
@@ -397,6 +406,10 @@ var fieldAlias = map[string][]string{
 	"Denom": {"BasketDenom", "BankDenom"}, "BatchDenom": {"Denom"}, "ClassId": {"Id"}, "ProjectId": {"Id"}, "Id": {"Key"}, "TradableAmount": {}, "Balance": {},
 	"BasketDenom": {"Denom"}, "Iri": {}, "Url": {}, "Manager": {}, "Amount": {"Quantity", "Balance"}, "AskDenom": {"BankDenom"}, "Name": {}, "Curator": {}, "Admin": {}, "Issuer": {}, "Seller": {}, "Address": {},
 }
+
+// a scalar (string, number) that is itself carried from one scan iteration to the next — a local assigned
+// on one branch only keeps the previous element's value on the other
+var loopCarriedScalar = regexp.MustCompile(`^[A-Za-z0-9_$]+\.L\d+(?:#\d+)?/[A-Za-z_][A-Za-z0-9_]*$`)
 
 var loopCarried = regexp.MustCompile(`[A-Za-z0-9_$]+\.L\d+(?:#\d+)?/[A-Za-z_][A-Za-z0-9_]*\.[A-Z]`)
 
@@ -594,4 +607,34 @@ func ruleTimestampConverters(c *Ctx, m *Model) {
 		c.Check(bad == "", "C17.CONV", name, p.Pos(fn.Pos()), name+": nil exactly for nil, otherwise Seconds and Nanos copied "+bad)
 	}
 	c.Count("timestamp_converters", n)
+}
+
+// ruleLossyDurations: a stored protobuf Duration / Timestamp reaches a query response by copying its
+// fields (the confirmed converters, the gogo ⇄ pulsar marshalling round trip). Going through Go's
+// time.Duration saturates at about 292 years and through time.Time loses the valid range check, while the
+// stored message may legally hold more (a start-date window of 1000 years as "any vintage"): no
+// AsDuration / AsTime in the closure of the query handlers.
+func ruleLossyDurations(c *Ctx, m *Model) int {
+	p := m.P
+	g := NewGraph(p)
+	var roots []*ssa.Function
+	for _, ep := range m.Entries {
+		if ep.Kind == "query" && ep.Implemented && ep.Fn != nil {
+			roots = append(roots, ep.Fn)
+		}
+	}
+	n := 0
+	for _, fn := range sortedFns(g.Closure(roots)) {
+		if !g.isSubjectFn(fn) || excludedPkg(fnPkgPath(fn)) != "" || isCanaryFn(fn) {
+			continue
+		}
+		for _, ci := range callsIn(fn) {
+			pkg, name := calleePkgName(ci.Common())
+			if strings.HasSuffix(pkg, "durationpb") && name == "Duration.AsDuration" {
+				n++
+				c.Violate("C17.CONV", funcKey(fn)+"#AsDuration", p.Pos(ci.Pos()), "a stored protobuf Duration is converted through time.Duration on the way to a query response: AsDuration saturates at about 292 years, while the stored message may hold up to 10000 — the response would not show what the state holds", nil)
+			}
+		}
+	}
+	return n
 }
